@@ -127,6 +127,10 @@ def Eqn.met (F : Fns α) (env : Var → α) (eps tol : α) (e : Eqn α) : Option
   | .eq => pure (if e.hard then decide (pyAbs (l - r) ≤ tol)
                  else (decide (r - eps - tol ≤ l) && decide (l ≤ r + eps + tol)))
 
+/-- `epsilon.evaluate()` / `epsilon.get_gekko_expression()` of the process-wide slack tree whose plain value
+    is `raw`: values below `thr = 1e-6` are reported as `0.0`. -/
+def epsValue (thr raw : α) : α := if raw < thr then zero else raw
+
 /-! ### `netlist_to_utils` -/
 
 /-- `(x, y, w, h)` of a rectangle: centre and shape. -/
